@@ -235,7 +235,7 @@ def ch_pair(ctx) -> Channel:
     lines, recs = [], []
     plines, precs = [], []
     with appboot.Clock("2023-01-01T00:00:00Z") as clock:
-        for stream, url, t1, t2, kind, opts, defaults in gen_pairs(ctx, rng, ctx.scale(48, 400)):
+        for stream, url, t1, t2, kind, opts, defaults in gen_pairs(ctx, rng, ctx.scale(48, 2000)):
             ch.evaluations += 1
             ch.count(f"delta:{kind}")
             set_stream_defaults(app, stream, defaults)
